@@ -397,6 +397,14 @@ CONTRACTS = [
                       ("every-pending-connector-cancelled", "old(self._pending_connectors) <= self._g_cancelled"),
                       ("every-pending-connection-disconnected", "old(self._pending_connections) <= self._g_disconnected")],
              note="the Manager stops a Connector once (stop_connecting, then forgets or replaces it)"),
+    Contract(f"{C}.add_candidate", props=[PROP], params={"c": "opaque[conn]"},
+             self_fields=dict(CONNECTOR_FIELDS, _contenders="set[opaque[conn]]", _role="opaque[role]",
+                              _eventual_queue="obj[EventualQueueB]"),
+             requires=["in_state(self, 'connecting')"], modifies=["_contenders"],
+             ensures=[("still-connecting", "in_state(self, 'connecting')"),
+                      ("candidate-stays-tracked-until-it-wins", "self._pending_connections == old(self._pending_connections)")],
+             note="a connection that passed its handshake (a contender) is still a pending attempt: close() arriving before "
+                  "the eventual-send of accept() must still find it in _pending_connections"),
     Contract("lemma:outbound_attempt_tracked", props=[PROP], source_module=CON,
              params={"c": "obj[Connector]", "ep": "obj[EndpointB]", "p": "opaque[conn]"},
              source_text="""
@@ -524,6 +532,16 @@ def tasks():
     for c in CONTRACTS:
         out.append(ContractTask(c, regf_inline(*INLINE_FOR[c.target]) if c.target in INLINE_FOR else regf))
     out.append(FuncTask("manager-stop-table", table_task, True, "data"))
+    # close() completing also depends on the Manager's timer discipline: abandon_connection / stop cancel
+    # `_timer`, which raises (and aborts the shutdown) unless the timer is still pending.  That `_timer` is
+    # None or pending is established by C16's contracts (timer_expired clears it first, every arming site
+    # stores a fresh pending call): the same tasks are run here so that this check sees their failure too.
+    from . import c16
+    for t in c16.tasks():
+        n = t.contract.target
+        if n.startswith("lemma:timer_expiry") or n.endswith(("Manager._send_ping_reset_timer", "Manager.abandon_connection",
+                                                             "Manager._stop_using_connection")):
+            out.append(t)
     return out
 
 
